@@ -264,8 +264,10 @@ def prog (cfg : Cfg) : TKind → List Op
 def raise (x : Task) (e : Err) (rest : List Op) : Task :=
   { x with err := some e, ops := rest.filter Op.isFin }
 
+/-- what a script reads: the workspaces of its valid arguments and of its tools (`bidDeps`); the sandbox
+is an execution environment, not an input -/
 def inputs (P : Project) (st : St) (s : Nat) : List Nat :=
-  ((P.info s).deps.filter fun d => (P.info d).valid).map fun d => st.diskAt (P.info d).path
+  (P.info s).bidDeps.map fun d => st.diskAt (P.info d).path
 
 /-- the token was obtained (directly or after waiting): enter the body of the task -/
 def afterStart (cfg : Cfg) (x : Task) (rest : List Op) : Task :=
